@@ -326,7 +326,8 @@ func RunSession(s Session) mon.Result {
 		return false
 	}
 	bad := func(key, f string, a ...interface{}) mon.Result {
-		if !strings.Contains(key, "echo-tail-shares-read-with-reply") && echoTailSharedRead() {
+		if (strings.HasPrefix(key, "c08/reply-") || strings.HasPrefix(key, "c08/result-")) &&
+			!strings.Contains(key, "echo-tail-shares-read-with-reply") && echoTailSharedRead() {
 			key += "+echo-tail-shares-read-with-reply"
 		}
 		return mon.Result{Verdict: mon.Violated, Key: key, NonTrivial: true,
@@ -715,12 +716,14 @@ func init() {
 		Level: "exploration",
 		Rule: "PRNG-generated sessions of the real netconf.Driver over devsim.Conn against the ncsim server model: 3-25 RPCs (profile 'long': 104-143, " +
 			"ids beyond 200) of 15 kinds plus 2 locally failing ones; per request the server replies now / late (held until the harness has seen the caller's " +
-			"timeout error, then released before / inside / together with / after later calls) / never; x {1.0,1.1} x {echo,no echo} x segmentation " +
+			"timeout error, then released before / inside / together with / after later calls) / never; x {1.0,1.1} x {no echo, echo with marks, echo sharing reads with the reply} x segmentation " +
 			"(fixed 1,3,17,4096, whole, geom, mix) x chunkings of 1.1 replies (incl. boundaries inside message-id=\"...\") x bodies that quote a foreign message-id=\"N\" as text. " +
 			"Non-trivial = the server saw >=3 requests and (a late reply had been delivered in full before a later call returned, or a verified success " +
 			"followed a timed-out call, or a verified success whose reply had a chunk boundary inside the message-id attribute). Distinct = descriptor hash.",
 		Assumptions: []string{
-			"one transport read never carries bytes of two server messages (message marks after every reply, released late reply and echoed request; quantifier of C08)",
+			"one transport read never carries bytes of two server messages (message marks after every reply and every released late reply; quantifier of C08); " +
+				"the echo of the client's own request is not a server message: in half of the echoing sessions it carries no mark, so one read may hold the tail of the echo (delimiter, returns) and part or all of the reply that follows",
+			"a planned-now reply is sent either the moment the request is complete (before the echo of the trailing return) or after the call's last transport write (nothing follows the reply)",
 			"the server answers with message-id=\"N\" in double quotes, N the id of the request, and replies never precede the complete request",
 			"random reply bodies and request arguments contain none of: ']]>]]>', '#', '</rpc>', 'message-id', 'subscription-id' (checked by brute force by the generator); " +
 				"on purpose ~1/6 of the replies quote a message-id=\"N\" attribute as text inside the body (N a past id, the next id, a far id), always after the reply element's own attribute",
